@@ -144,7 +144,8 @@ fn x_strategy() -> BoxedStrategy<X> {
 }
 
 fn rule_strategy() -> BoxedStrategy<RuleSpec> {
-    (0u8..6, x_strategy(), x_strategy(), x_strategy(), any::<u16>(), any::<u16>(), any::<u16>())
+    // kinds 0..3 polynomial, 4 with a periodic column, 5 geometric, 6 plateau (see realize)
+    (prop_oneof![8 => 0u8..6, 1 => Just(6u8)], x_strategy(), x_strategy(), x_strategy(), any::<u16>(), any::<u16>(), any::<u16>())
         .prop_map(|(kind, a, b, e, d_sel, k_sel, m_sel)| RuleSpec { kind, a, b, e, d_sel, k_sel, m_sel })
         .boxed()
 }
@@ -285,7 +286,7 @@ pub fn realize<B: FA>(s: &Shape, cell_budget: usize) -> Instance {
     let g = B::get_root_of_unity(log_n).to_u128();
 
     // --- periodic columns -----------------------------------------------------------------------
-    let periodic: Vec<Vec<X>> = s
+    let mut periodic: Vec<Vec<X>> = s
         .periodic
         .iter()
         .map(|p| {
@@ -310,6 +311,17 @@ pub fn realize<B: FA>(s: &Shape, cell_budget: usize) -> Instance {
                 let exps = if s.degenerate { &geo_exponents[..4] } else { &geo_exponents[..] };
                 let ex = exps[pick_index(r.d_sel, exps.len())];
                 Rule::Geo { ratio: X(fp.pow(g, ex as u128)) }
+            },
+            6 => {
+                // plateau column: next = per * cur with a periodic column 1, 1, .., 1, rho of cycle c appended for it:
+                // the column is constant over stretches of c rows (structured value lists for strided assertions:
+                // runs of equal values, equal pairs, ...)
+                let log_c = 1 + pick_index(r.m_sel, log_n as usize) as u32;
+                let c = 1usize << log_c;
+                let mut vals = vec![X(1); c];
+                vals[c - 1] = nonzero(r.a);
+                periodic.push(vals);
+                Rule::PerPoly { a: X(1), d: 1, m: periodic.len() - 1, b: X(0), k, e: X(0) }
             },
             4 if !periodic.is_empty() => {
                 let m = pick_index(r.m_sel, periodic.len());
@@ -414,6 +426,12 @@ pub fn realize<B: FA>(s: &Shape, cell_budget: usize) -> Instance {
                 }
             },
             2 => {
+                // every other sequence assertion goes to a plateau column if there is one
+                let plateau = (0..width).map(|o| (col0 + o) % width).find(|c| matches!(&desc.rules[*c], Rule::PerPoly { a, d: 1, b, e, .. } if a.0 == 1 && b.0 == 0 && e.0 == 0));
+                let col0 = match plateau {
+                    Some(pc) if ap.col_sel % 2 == 0 => pc,
+                    _ => col0,
+                };
                 let s_log = 1 + pick_index(ap.stride_sel, log_n as usize - 1); // stride 2..n/2
                 let stride = 1usize << s_log;
                 let len = n / stride;
@@ -464,6 +482,9 @@ pub fn realize<B: FA>(s: &Shape, cell_budget: usize) -> Instance {
     }
     if width >= 254 {
         labels.push("width>=254".into());
+    }
+    if desc.assertions.iter().any(|a| matches!(a, Assert::Sequence { values, .. } if values.len() >= 4 && values.windows(2).any(|w| w[0] == w[1]) && values.windows(2).any(|w| w[0] != w[1]))) {
+        labels.push("sequence-with-runs-of-equal-values".into());
     }
     if desc.assertions.iter().any(|a| matches!(a, Assert::Sequence { values, .. } if values.len() >= 64)) {
         labels.push("sequence>=64".into());
